@@ -381,7 +381,7 @@ func runOne(name string, cfg CheckCfg, tier, repo, only string, workers int, noN
 		if len(ev.MissingCover) > 0 {
 			noVerdict = append(noVerdict, hc.Name+": vacuous, cover labels not reached: "+strings.Join(ev.MissingCover, ","))
 		}
-		if h.asserts == 0 && h.outcomes["panic"] == 0 && len(hc.Covers) == 0 {
+		if h.asserts == 0 && h.outcomes["panic"] == 0 && len(hc.Covers) == 0 && len(h.knownHits) == 0 {
 			noVerdict = append(noVerdict, hc.Name+": vacuous, no obligation reached")
 		}
 		// candidates (dedupe by message)
